@@ -124,7 +124,7 @@ def run(prog, tier):
                         res.viol('opener', 'output stream opened outside c3d::write', f.loc(n['id']),
                                  'another function opens a file for output: its state is not checked',
                                  function=f.sig, expr='open')
-    res.minimum('stream uses in section writers', nstream_uses, 40)
+    res.minimum('stream uses in section writers', nstream_uses, 20)
     res.minimum('output-file openers', openers, 1)
 
     # ---- typestate over c3d::write ------------------------------------------------------------
